@@ -235,7 +235,7 @@ def unit_lifetime(ctx):
     has_del = any(isinstance(c, ClassInfo) and ("__del__" in c.attrs) for c in cls.mro() if isinstance(c, ClassInfo))
     finalizers = [ast.unparse(n.func) for n in ast.walk(tree) if isinstance(n, ast.Call) and ast.unparse(n.func) in ("weakref.finalize", "finalize", "weakref.ref", "weakref.proxy")]
     ctx.oblige("panoptica_aggregator.Panoptica_Aggregator/lifetime(no finalizer deletes files: no __del__, no weakref.finalize / weakref callbacks)", [],
-               z3.BoolVal(not has_del and not finalizers), func=fn, replay="c16.lifetime", info={"structural": True, "del": has_del, "finalizers": str(finalizers)})
+               z3.BoolVal(not has_del and not finalizers), func=fn, replay="c16.lifetime", info={"del": has_del, "finalizers": str(finalizers)})
     # removal sites of files: which functions call os.remove / Path.unlink
     removers = []
     for node in ast.walk(tree):
@@ -248,7 +248,7 @@ def unit_lifetime(ctx):
     handler_names = {r.split(".")[-1] for r in registered}
     ok_sites = set(removers) <= ({"__init__"} | handler_names) and len(registered) == 1
     ctx.oblige("panoptica_aggregator.Panoptica_Aggregator/lifetime(files are removed only in the constructor and in the one handler registered with atexit)", [],
-               z3.BoolVal(bool(ok_sites)), func=fn, replay="c16.lifetime", info={"structural": True, "removal_sites": str(sorted(set(removers))), "atexit": str(registered)})
+               z3.BoolVal(bool(ok_sites)), func=fn, replay="c16.lifetime", info={"removal_sites": str(sorted(set(removers))), "atexit": str(registered)})
 
 
 def build(ctx):
